@@ -6,6 +6,7 @@ import (
 	"strings"
 
 	structform "github.com/elastic/go-structform"
+	"github.com/elastic/go-structform/visitors"
 )
 
 var fmtNames = []string{"cbor", "ubj", "json"}
@@ -46,7 +47,12 @@ func (f *format) rtRun(cfg int, evs []event) string {
 	for _, b := range w.bytes() {
 		h = (h ^ uint64(b)) * 1099511628211
 	}
-	mode := []string{"P", "P", "S", "R", "E"}[(h>>20)%5]
+	mode := []string{"P", "G", "S", "R", "E", "T"}[(h>>20)%6]
+	if (mode == "G" || mode == "T") && (h>>8)%2 == 0 && len(w.bytes()) > 1 {
+		// a truncated copy of the image goes through the package-level function first (its result does
+		// not matter): whatever that leaves behind in the process must not reach the next call
+		guard(guardTime, func() { f.pkgParse(append([]byte{}, w.bytes()[:len(w.bytes())/2]...), visitors.NilVisitor()) })
+	}
 	p := f.parseRun(mode, -1, [][]byte{w.bytes()})
 	return fmt.Sprintf("B %s E - %s", hexTok(w.bytes()), stripDepth(p))
 }
